@@ -214,16 +214,21 @@ def drive_arith(rec, quick):
         events.append({"e": "Dot", "ncols": 1, "u": [a, d0], "v": [[b], [one]], "r": [doubles_to_grp(D.f64)], "_what": "reim4_add_mul (dest + a * b)"})
     # convolution window
     wmax = 5 if quick else 9
-    for sa in range(0, wmax):
-        for sb in range(0, wmax):
-            a = [grp(rng, 20) for _ in range(sa)]
-            b = [grp(rng, 20) for _ in range(sb)]
+    # the box, then long operands (each side alone and both; lengths around the powers of two and well beyond)
+    longs = [(129, 3), (3, 129), (130, 131), (300, 100), (100, 300), (64, 65), (17, 33)] if quick else \
+            [(129, 3), (3, 129), (130, 131), (300, 100), (100, 300), (64, 65), (17, 33), (257, 2), (2, 257), (512, 513), (1000, 40), (40, 1000)]
+    for (sa, sb) in [(x, y) for x in range(0, wmax) for y in range(0, wmax)] + longs:
+        if True:
+            long_ = sa >= wmax or sb >= wmax
+            a = [grp(rng, 20 if not long_ else 3) for _ in range(sa)]
+            b = [grp(rng, 20 if not long_ else 3) for _ in range(sb)]
             A, B = Buf(64 * sa), Buf(64 * sb)
             if sa:
                 A.f64[:] = sum((grp_to_doubles(g) for g in a), [])
             if sb:
                 B.f64[:] = sum((grp_to_doubles(g) for g in b), [])
-            for k in range(0, sa + sb + 2):
+            for k in (range(0, sa + sb + 2) if not long_ else sorted(set([0, 1, min(sa, sb) - 1, min(sa, sb), max(sa, sb) - 1, max(sa, sb),
+                                                                               sa + sb - 2, sa + sb - 1, rng.randrange(0, sa + sb)]))):
                 R = Buf(64, fill=0xEE)
                 if not rec.progress("reim4_convolution_1coeff_ref k=%d sizea=%d sizeb=%d" % (k, sa, sb)):
                     continue
@@ -235,8 +240,9 @@ def drive_arith(rec, quick):
                     continue
                 events.append({"e": "Conv", "k": k, "a": a, "b": b, "r": doubles_to_grp(R.f64), "_what": "convolution_1coeff k=%d sizes %d,%d" % (k, sa, sb)})
             # the range form and the two-coefficient form must agree with the one-coefficient form
-            for size, off in ([(sa + sb + 1, rng.randrange(0, 3)), (1, rng.randrange(0, max(1, sa + sb))), (3, 1), (2, rng.randrange(0, 3))] if quick else
-                            [(sz, of) for sz in (0, 1, sa + sb, sa + sb + 2) for of in range(0, sa + sb + 2)]):
+            for size, off in ([(5, rng.randrange(0, sa + sb)), (1, rng.randrange(0, sa + sb)), (4, max(0, min(sa, sb) - 2)), (3, sa + sb - 3)] if long_ else
+                              [(sa + sb + 1, rng.randrange(0, 3)), (1, rng.randrange(0, max(1, sa + sb))), (3, 1), (2, rng.randrange(0, 3))] if quick else
+                              [(sz, of) for sz in (0, 1, sa + sb, sa + sb + 2) for of in range(0, sa + sb + 2)]):
                 R = Buf(64 * size, fill=0xEE)
                 L.fn("reim4_convolution_ref", "v puupupu")(R.addr, size, off, A.addr, sa, B.addr, sb)
                 R2 = Buf(128, fill=0xEE)
